@@ -29,6 +29,30 @@ type Call struct {
 	Dry bool
 }
 
+// overrun is a deterministic livelock signal (no clock involved): the predicate of a Dry search is still being queried
+// AFTER Search has returned. By then the counter of outstanding results is zero for good, so a worker of the unchanged
+// pool makes at most the one query it had already decided on (at most one per worker); overrunLimit is far above any
+// worker count used. The querying worker is then parked for good so that the case can end. Dry searches are only used
+// free-running: under the harness-owned schedule a worker that polls f while the workers holding the successes are parked
+// before their decrement would spin by construction.
+const overrunLimit = 2000
+
+var overrun int32
+
+func resetOverrun() { atomic.StoreInt32(&overrun, 0) }
+
+func dryQuery(returned *int32, late *int64) interface{} {
+	if atomic.LoadInt32(returned) == 1 && atomic.AddInt64(late, 1) > overrunLimit {
+		atomic.StoreInt32(&overrun, 1)
+		select {}
+	}
+	return nil
+}
+
+func overrunFail(callNo int, call Call) *pbt.Fail {
+	return pbt.Failf("search-overrun", fmt.Sprintf("call %d (%+v): f was queried more than %d times after Search had returned its %d results: the workers do not stop searching", callNo, call, overrunLimit, call.Count))
+}
+
 // Case is a sequence of pool calls on one pool, executed under a harness-chosen schedule.
 type Case struct {
 	Workers int
@@ -56,6 +80,7 @@ func runScheduled(c Case, maxAttempts int) outcome {
 }
 
 func runScheduledOnce(c Case) (out outcome) {
+	resetOverrun()
 	s := newScheduler()
 	s.install()
 	defer s.uninstall()
@@ -77,7 +102,8 @@ func runScheduledOnce(c Case) (out outcome) {
 	for callNo, call := range c.Calls {
 		type result struct{ vals []interface{} }
 		done := make(chan result, 1)
-		var attempts, successes int64
+		var attempts, successes, late int64
+		var returned int32
 		started := make(chan int, 1)
 		go func(call Call) {
 			started <- curGID()
@@ -87,7 +113,7 @@ func runScheduledOnce(c Case) (out outcome) {
 					k := int(atomic.AddInt64(&attempts, 1) - 1)
 					if len(call.Succ) == 0 || call.Succ[k%len(call.Succ)] {
 						if call.Dry && atomic.AddInt64(&successes, 1) > int64(call.Count) {
-							return nil
+							return dryQuery(&returned, &late)
 						}
 						return k + 1
 					}
@@ -111,6 +137,10 @@ func runScheduledOnce(c Case) (out outcome) {
 			snap, ok := s.quiesce()
 			if !ok {
 				cleanup()
+				if atomic.LoadInt32(&overrun) == 1 {
+					out.fail = overrunFail(callNo, call)
+					return
+				}
 				out.fail = pbt.Failf("inconclusive:no-quiescence", "managed goroutines did not become quiescent")
 				return
 			}
@@ -216,6 +246,10 @@ func census(s *scheduler, p *pool.Pool, workers int) *pbt.Fail {
 			continue
 		default:
 		}
+		if atomic.LoadInt32(&overrun) == 1 {
+			close(release)
+			return pbt.Failf("search-overrun", fmt.Sprintf("after the calls returned, f of a finished Search was still being queried (more than %d further queries): the workers did not stop searching", overrunLimit))
+		}
 		// fewer than W tasks in flight: is anything still able to move?
 		snap := snapshot()
 		allBlocked := true
@@ -301,7 +335,6 @@ func genCase(t *rapid.T) Case {
 			if !any {
 				call.Succ[0] = true // a search whose predicate never succeeds does not terminate by specification
 			}
-			call.Dry = rapid.IntRange(0, 3).Draw(t, "dry") == 0
 		}
 		c.Calls = append(c.Calls, call)
 	}
@@ -428,6 +461,7 @@ func body(kind string) {
 
 // runFree executes the calls without the scheduler; a watchdog decides deadlock by goroutine states.
 func runFree(c freeCase) *pbt.Fail {
+	resetOverrun()
 	s := newScheduler()
 	var p *pool.Pool
 	if c.Workers > 0 {
@@ -436,21 +470,24 @@ func runFree(c freeCase) *pbt.Fail {
 	for callNo, call := range c.Calls {
 		done := make(chan []interface{}, 1)
 		started := make(chan int, 1)
-		var attempts, successes int64
+		var attempts, successes, late int64
+		var returned int32
 		go func(call Call) {
 			started <- curGID()
 			if call.Search {
-				done <- p.Search(call.Count, func() interface{} {
+				r := p.Search(call.Count, func() interface{} {
 					body(c.Body)
 					k := int(atomic.AddInt64(&attempts, 1) - 1)
 					if len(call.Succ) == 0 || call.Succ[k%len(call.Succ)] {
 						if call.Dry && atomic.AddInt64(&successes, 1) > int64(call.Count) {
-							return nil
+							return dryQuery(&returned, &late)
 						}
 						return k + 1
 					}
 					return nil
 				})
+				atomic.StoreInt32(&returned, 1)
+				done <- r
 			} else {
 				done <- p.Parallelize(call.Count, func(i int) interface{} { body(c.Body); return i * i })
 			}
@@ -484,6 +521,9 @@ func runFree(c freeCase) *pbt.Fail {
 				if again && len(done) == 0 {
 					return pbt.Failf("deadlock:call", fmt.Sprintf("free-running call %d (%+v) of %d workers never returns: caller and all workers are blocked", callNo, call, c.Workers))
 				}
+			}
+			if atomic.LoadInt32(&overrun) == 1 {
+				return overrunFail(callNo, call)
 			}
 			if time.Now().After(deadline) {
 				return pbt.Failf("inconclusive:free-run", "call did not finish in 60s")
